@@ -81,6 +81,51 @@ def gen_case(rng, byte):
     return (pc, a, b, oreg, sorted(cells.items()), cons, files)
 
 
+def gen_selfmod(rng):
+    """k-instruction sequence whose first instruction overwrites the very word it is fetched from (or the next one):
+    STAM / STAI / the READ system call storing into code; the following bytes differ between old and new word"""
+    SAFE = [0x35, 0x47, 0xD1, 0xD2, 0x31, 0x42, 0x3F, 0x40, 0x51, 0xE1, 0xE2]      # LDAC/LDBC/ADD/SUB/LDAP/PFIX bytes
+    w = rng.choice([2, 3, 5, 8, 100, 1000, rng.randrange(2, 5000)])
+    off = rng.choice([0, 0, 1, 2])
+    pc = 4 * w + off
+    kind = rng.choice(['stam', 'stai', 'read', 'read'])
+    target = w if rng.random() < 0.8 or off == 3 else w + 1
+    old = [rng.choice(SAFE) for _ in range(8)]
+    new = [rng.choice(SAFE) for _ in range(4)]
+    cells = {}
+    cons, files = [], []
+    a, b, oreg = rng.randrange(0, 1000), rng.randrange(0, 1000), 0
+    if kind == 'stam':
+        n = target & 15
+        oreg = target & ~15
+        old[off] = 0x20 | n
+        a = new[0] | new[1] << 8 | new[2] << 16 | new[3] << 24
+    elif kind == 'stai':
+        n = rng.randrange(16)
+        old[off] = 0x80 | n
+        b = (target - n) % W
+        a = new[0] | new[1] << 8 | new[2] << 16 | new[3] << 24
+    else:
+        old[off] = 0xD3
+        a = 2
+        sp = (target - 1) % W
+        cells[1] = sp
+        st_ad = (sp + 2) % W
+        if st_ad == w or st_ad >= MEMW or st_ad == 1:
+            return None
+        if st_ad == w + 1:
+            old[4:8] = [0, 0, 0, 0]          # the stream word (0 = console) is the next code word
+        else:
+            cells[st_ad] = 0
+        cons = [rng.choice(SAFE + [0x11, 0x21, 0x91])]
+    if 1 in (w, w + 1):
+        return None
+    cells[w] = old[0] | old[1] << 8 | old[2] << 16 | old[3] << 24
+    cells[w + 1] = old[4] | old[5] << 8 | old[6] << 16 | old[7] << 24
+    k = rng.choice([2, 3, 4, 5])
+    return 'k%d ' % k + case_line((pc, a, b, oreg, sorted(cells.items()), cons, files))
+
+
 def case_line(c):
     pc, a, b, o, cells, cons, files = c
     t = [pc, a, b, o, len(cells)]
@@ -135,6 +180,12 @@ def main():
         for byte in range(256):
             for _ in range(per_byte if byte != 0xD3 else per_byte * 40):
                 cases.append(case_line(gen_case(rng, byte)))
+    if not ck.replay_arg:
+        nself = 1500 if not ck.thorough() else 60000
+        for _ in range(nself):
+            c = gen_selfmod(rng)
+            if c:
+                cases.append(c)
     open(os.path.join(d, 'cases.txt'), 'w').write('\n'.join(cases) + '\n')
     rc, out = sh('%s c02step < cases.txt > model.txt' % hv, cwd=d, timeout=1800)
     lines = open(os.path.join(d, 'model.txt')).read().split('\n')
@@ -167,7 +218,7 @@ def main():
     for j, i in enumerate(send):
         exp = strip_read(I[i])
         got = R[j]
-        toks = cases[i].split()
+        toks = [t for t in cases[i].split() if not t.startswith('k')]
         distinct.add((I[i].split('|')[0], cases[i].split()[0:4] and tuple(toks[1:4])))
         if exp != got:
             nviol += 1
